@@ -142,6 +142,16 @@ CHECKS['C17'] = dict(
     note='one token per line; duplicate single-valued properties not generated; any corrupted line is accepted as the reported line',
     design='§4 C17')
 
+CHECKS['C10'] = dict(
+    technique='TLA+ spec Views.tla (the view-filter language over one merchant: months, total, exact cv via its square, tags, payments, '
+              'by()/period()/aggregates with auto-mapping, global and local variables, error => not a member): TLC checks ViewsIndependent / '
+              'ExcludedNowhere / NegationPartitions and exports the membership matrix of every views file of the bounded universe; each is '
+              'replayed through parse_sections + analyze_transactions + classify_by_sections + compute_section_totals',
+    text='Exhaustive within bounds: every filter of the universe against every merchant; membership and view totals compared with the spec; '
+         'independence additionally checked on the real code over all orders and sub-files of random 3-view files.',
+    note='fixed set of 9 merchants; stddev(), by("week"), exact cv ties and number-vs-list readings of `payments` are not judged',
+    design='§4 C10')
+
 NOT_YET = {}
 
 
